@@ -95,7 +95,8 @@ LEVEL_TEXT = ("Machine-checked Coq theorem: for every scene (options, ticks, lai
               "read from the SVG document equals the geometry read from the TikZ document: box origins, sizes, link segments "
               "point for point, dot centres and diameters, main-layer shift, colours (as RGB triples, via the C20 lemmas and "
               "injectivity of int2name for the macro look-up) and texts are equal; axis end and tick positions agree within the "
-              "1-unit %i truncation. Both emitter models are tied to the code by differential execution on every run.")
+              "1-unit %i truncation. Both emitter models are tied to the code by differential execution on every run."
+              " C09_pipeline_same_geometry: the same for the two documents the whole-pipeline model computes from raw input; the pipeline:* family ties that model to both real exports.")
 LEVEL_NOTE = ("Trusted: Coq kernel; extraction re-checked on a slice by vm_compute; the correspondence harness (SVG/TikZ parsers, "
               "generators). The decimal rounding of %.8f/%.16f/%f is modelled (half-even) and tied digit for digit (for %.8f when "
               "all sizes are dyadic, else to the printed precision); partial: the digit string of str() is not modelled, only "
